@@ -421,6 +421,6 @@ var _ = cty.StringVal
 func init() {
 	facet.Register(facet.F[DateCase]{
 		Prop: "C14", Name: "ref/datetime", Rule: "timestamps from components: years 0..9999 (pool of boundary years incl. leap/non-leap centuries), last/first/random day of the month, boundary hours (0, 11, 12, 13, 23), optional fractional seconds of 1-13 digits, zones Z, +-00:00, half/quarter-hour and extreme offsets; 1/10 invalidated by one of 18 mutations (one-digit hour, comma fraction, zone hour 24, missing T, month 13, Feb 30, no zone, ...). formatdate: 0-8 tokens = documented mnemonics, quoted literals, bare non-letter literals, 1/10 with an undocumented mnemonic or an unterminated quote; reference = time.Parse(RFC3339) + Time.Format with the Go layout equivalent of each mnemonic. timeadd: 1-3 number+unit pairs (ns us \u00b5s ms s m h, fractions, optional sign), 1/10 malformed; reference = exact sum of the parts, Time.Add, Format(time.RFC3339). Invalid inputs must fail. Non-trivial = >= 3 tokens, a non-UTC zone / fraction / compound duration, or a documented error",
-		Quick: 40000, Thorough: 300000, Gen: genDate, Check: wrap(checkDate),
+		Quick: 100000, Thorough: 400000, Gen: genDate, Check: wrap(checkDate),
 	})
 }
